@@ -38,10 +38,10 @@ TRUSTED = [
 ASSUMPTIONS = ['position + size < 2^64 in Serializer/Deserializer (size_t wrap of pos_+need is not modelled)',
                'RawDataToHexStr length < 65536 (its uint16_t length parameter)',
                'std::isprint in the "C" locale; glibc answers 0 for negative char values',
-               'MD5: generated correspondence cases use update lengths < 2^29 bytes; the single-update >= 512 MiB case (wrong digest '
-               'with the 64-bit carry comparison, C19_md5_count_counterexample, patch C19-05) is run only by '
-               '--replay props/C19/md5_big_update.ops, where the expected digest is python hashlib (the list model cannot '
-               'evaluate 2^29 bytes); Gen.md5CarryWide records which comparison is in the source']
+               'MD5: one update call is shorter than 2^61 bytes (plain_text_len << 3 in a 64-bit size_t); the >= 512 MiB single-update '
+               'case fixed by C19-05 is in the corpus (expected digest from python hashlib: the list model cannot evaluate 2^29 bytes); '
+               'Gen.md5CarryWide records which carry comparison is in the source and theorem carry_is_narrow requires the repaired one',
+               'AES: key and block are exactly 16 bytes (the model reads missing bytes as 0, the real code would read out of bounds)']
 RULE = ('one case = 1..12 codec operations from props/C19/plugin.py gen(): encode/decode/round-trip ops on byte strings of '
         'length 0..70 (all 256 byte values), capacities exact/one-short/zero/roomy, 64-bit values around every length boundary '
         '±2, serializer field sequences, MD5 update splits, AES key/block pairs, plus a malformed stream; non-trivial = the case '
@@ -49,14 +49,15 @@ RULE = ('one case = 1..12 codec operations from props/C19/plugin.py gen(): encod
         'multi-field serializer op (tags in the B lines); distinct = distinct op text')
 LEVEL_TEXT = ('Lean 4 theorems over hand-written models of the nine codec sources, all for every input: round trips (Base64 both '
               'decoders, scalable integer for every 64-bit value and capacity, hex strings all three readers, serializer for every '
-              'field sequence, URL both modes, AES-128 invcipher∘cipher for every key and block), advertised sizes, no out-of-bounds '
-              'outcome for every input and capacity (Base64, scalable integer, serializer), tables extracted from the source equal '
-              'to the standards (decide over whole tables), table-driven CRC-16/32 = bitwise CRC for every byte string and seed, '
-              'checksums = one\'s-complement sums, MD5 split independence for updates < 2^29 bytes (with the counter counterexample '
-              'beyond); tied to the code on every run by differential execution under ASan+UBSan')
+              'field sequence, URL both modes, AES-128 invcipher∘cipher), advertised sizes, no out-of-bounds outcome for every input '
+              'and capacity, rejection of every non-alphabet Base64 character, and equality with independently written definitions '
+              'of the published algorithms: Base64 encoder = RFC 4648, table-driven CRC-16/32 = bitwise CRC, checksums = '
+              'one\'s-complement sums, MD5 (any split into updates) = RFC 1321 (Spec.md5), AES-128 cipher and inverse cipher = '
+              'FIPS-197 (Spec.aesCipher / aesInvCipher); tables regenerated from the source on every run; tied to the code on every '
+              'run by differential execution under ASan+UBSan')
 LEVEL_NOTE = ('trusted: Lean kernel, hand-written models + differential tie (coverage bounded by the generator, measured in '
-              'evidence), my transcription of the standards in Spec.lean; MD5 and AES equality with the published algorithm beyond '
-              'the table theorems is by comparison with Spec.lean / python hashlib on every run, not a theorem')
+              'evidence), my transcription of the standards in Spec.lean (checked against the RFC/FIPS test vectors and python '
+              'hashlib/zlib/base64 on every run)')
 TECHNIQUE = 'Lean 4 proofs over executable codec models + regenerated tables + model/implementation correspondence check'
 DESIGN_REF = 'DESIGN.md §6 C19, §7 row 11'
 
